@@ -62,6 +62,13 @@ Error Compiler::on_reinit(CodeHolder& code) noexcept {
 Error Compiler::finalize() {
   ASMJIT_PROPAGATE(run_passes());
   Assembler a(_code);
+  // Errors (and the log) of the serialization belong to this emitter: an own handler / logger wins over the CodeHolder's.
+  if (has_own_error_handler()) {
+    a.set_error_handler(error_handler());
+  }
+  if (has_own_logger()) {
+    a.set_logger(logger());
+  }
   a.add_encoding_options(encoding_options());
   a.add_diagnostic_options(diagnostic_options());
   return serialize_to(&a);
